@@ -8,6 +8,11 @@ CHECKS = {
    technique="TLA+ spec CheckpointFS.tla model-checked with TLC; real fork-and-kill crash enumeration validated by TraceCheckpointFS.tla (trace validation) + state-graph macro-transition comparison",
    text="TLC explores every crash point of every sequence of up to 3 (quick) / 4 (thorough) consecutive, possibly interrupted, checkpoint writes of the writer program as coded; the real writers (save_parameters, Optimizer.save_full_state, MCMC.save_full_state) are run in forked children killed before each file-system call from every reachable directory state, and every recorded history is validated by TLC against the spec with the three invariants evaluated in every state.",
    note="Process death only (no power loss / fsync); POSIX rename atomicity; interception of builtins.open/io.open/os.rename/replace/remove/unlink/link/truncate (a writer using other primitives is judged on observed directories only); premise: a complete checkpoint exists before the first modelled write."),
+
+ "C13": dict(level="model_checking", design="4/C13",
+   technique="TLA+ spec Loader.tla (Impl = transcription of remove_comments/process_object, Req = declarative requirement) model-checked with TLC over all documents in the bound; every TLC-emitted document replayed into the real loader (outcome, registry, object identity, process_object event sequence, values and update visibility)",
+   text="TLC proves Impl = Req for every document over ids {a,b,c} up to nesting depth 3 (plus decorated documents with missing ids, ignored objects and comment keys), >31k documents in the quick tier; each of them is rendered with real classes in two flavours (Parameter/Cat/View/Transformed and Taxon/Taxa) and loaded as torchtree.main does, and the real outcome, registry, `is`-identity of every referenced object, event sequence and tensors before/after updates through the registry are compared with the spec.",
+   note="Bound: 3 ids, depth<=3 (depth 4 / 4 ids in thorough), <=2 children per node; classes other than the six rendered ones are not enumerated (their from_json child order differs; C19 loads CLI documents); error kinds are not compared, only JSONParseError vs accept vs other exception."),
 }
 
 PENDING = {}
